@@ -63,7 +63,7 @@ fn main() {
                     "C08" => e4::replay_cmd(&ctx, &id, &file),
                     "C05" => {
                         let text = std::fs::read_to_string(&file).unwrap_or_default();
-                        if text.contains("\"c05text\"") {
+                        if text.contains("\"c05text\"") || text.contains("\"c05files\"") {
                             e4::replay_cmd(&ctx, &id, &file)
                         } else {
                             e3::replay_cmd(&ctx, &id, &file)
